@@ -58,7 +58,7 @@ Section Spec.
     w_prev : obs
   }.
 
-  Definition obs0 : obs := mkObs [] (map (fun _ => 0) accts) (map (fun _ => 0) accts) false false (map (fun _ => None) univ) 0 [].
+  Definition obs0 : obs := mkObs [] (map (fun _ => 0) accts) (map (fun _ => 0) accts) false false (map (fun _ => None) univ) 0 [0; 0; 0; 0; 0; 0; 0].
   Definition w0 : wst := mkW [] 0 [] [] [] obs0.
 
   Definition flag (b : bool) (code : N) : list N := if b then [code] else [].
@@ -157,62 +157,81 @@ Section Spec.
     && negb (mem slot_eqb (slot_of t) B).
   Definition ready_unbatched (ob : obs) (B : list slot) : N := len (filter (ready_unbatched_tx ob B) univ).
 
+  (** components of one step's check; [check_step] below is their concatenation *)
+  Definition st_sub (w : wst) (o : op) : list tx :=
+    match o with OProcess _ _ _ txs => txs ++ w_sub w | ORestart _ _ => [] | _ => w_sub w end.
+  Definition st_seq0 (w : wst) (o : op) : N :=
+    match o with OSetSeq n => n | ORestart h _ => h | _ => w_seq w end.
+  Definition st_B0 (w : wst) (o : op) : list slot :=
+    match o with ORestart _ _ => [] | _ => w_B w end.
+  Definition st_led (w : wst) (o : op) : list (N * N) :=
+    match o with
+    | ORestart _ led => led
+    | OSetLedger a n => aset N.eqb a n (w_led w)
+    | _ => w_led w
+    end.
+  Definition cm_prev (w : wst) : list (N * N) := combine accts (o_cmt (w_prev w)).
+
+  (** C18: the batches of the step *)
+  Definition st_batches (w : wst) (o : op) (ob : obs) : list N * list slot * N * list (N * N) :=
+    if is_drain o then check_drain (st_led w o) (cm_prev w) (st_sub w o) (st_B0 w o) (st_seq0 w o) (o_batches ob)
+    else let '(e, B, s) := check_batches (st_led w o) (obs_cmt (w_prev w)) (st_sub w o) (st_B0 w o) (st_seq0 w o) (o_batches ob) in
+         (e, B, s, cm_prev w).
+
+  Definition e_current (o : op) (ob : obs) : list N :=
+    if is_drain o then []
+    else flag (negb (forallb (fun b : batch => forallb (held ob) (snd b)) (o_batches ob))) E_not_current.
+
+  Definition cn_ok (w : wst) (o : op) (ob : obs) (cm_exp : list (N * N)) (a : N) : bool :=
+    match o with
+    | ORestart _ led => (obs_cmt ob a =? lookup0 a led) && (obs_pend ob a =? lookup0 a led)
+    | OCommit hs => (obs_cmt (w_prev w) a <=? obs_cmt ob a) &&
+                    ((obs_cmt ob a =? obs_cmt (w_prev w) a) ||
+                     existsb (fun t => (t_acct t =? a) && (t_nonce t + 1 =? obs_cmt ob a)) hs)
+    | ODrain _ => obs_cmt ob a =? lookup0 a cm_exp
+    | _ => obs_cmt ob a =? obs_cmt (w_prev w) a
+    end.
+  Definition e_commit_nonce (w : wst) (o : op) (ob : obs) (cm_exp : list (N * N)) : list N :=
+    flag (negb (forallb (cn_ok w o ob cm_exp) accts)) E_commit_nonce.
+
+  Definition e_lookup (ob : obs) : list N :=
+    flag (negb (forallb (fun t => match obs_get ob t with None => true | Some t' => tx_eqb t' t end) univ)) E_lookup.
+  Definition e_lost (w : wst) (o : op) (ob : obs) : list N :=
+    flag (negb (forallb (fun t => negb (held (w_prev w) t) || held ob t || lost_ok w o ob t) univ)) E_lost.
+  Definition e_admitted (w : wst) (o : op) (ob : obs) : list N :=
+    match o with
+    | OProcess _ _ _ txs => flag (negb (forallb (held ob) (fresh_valid (w_prev w) (w_sub w) [] txs))) E_not_admitted
+    | _ => []
+    end.
+  Definition e_flag (ob : obs) (B2 : list slot) : list N :=
+    flag (existsb (fun a => next_batch (obs_cmt ob) B2 a <? obs_pend ob a) accts && negb (o_has ob)) E_flag.
+  Definition e_pending (ob : obs) : list N := flag (negb (forallb (pending_exact ob) accts)) E_pending.
+  Definition e_stale (w : wst) (o : op) (ob : obs) : list N :=
+    flag (len (filter (fun t => slot_held ob (slot_of t)) (dedup tx_eqb (st_sub w o))) <? nth 4 (o_dbg ob) 0) E_stale.
+  Definition e_liveness (w : wst) (o : op) (ob : obs) : list N :=
+    match o with
+    | ODrain k =>
+        if ready_unbatched (w_prev w) (w_B w) <=? N.of_nat k * batch_size p then
+          flag (negb (forallb (fun t =>
+                  negb (ready_unbatched_tx (w_prev w) (w_B w) t)
+                  || existsb (fun b : batch => mem tx_eqb t (snd b)) (o_batches ob)) univ)) E_liveness
+        else []
+    | _ => []
+    end.
+  Definition st_arr (w : wst) (o : op) (ob : obs) : list (tx * N) :=
+    match o with
+    | ORestart _ _ => []
+    | OProcess _ _ now txs =>
+        fold_left (fun ar t => if negb (held (w_prev w) t) && held ob t then aset tx_eqb t now ar else ar) txs (w_arr w)
+    | _ => w_arr w
+    end.
+
   Definition check_step (w : wst) (o : op) (ob : obs) : list N * wst :=
-    let prev := w_prev w in
-    let sub := match o with OProcess _ _ _ txs => txs ++ w_sub w | ORestart _ _ => [] | _ => w_sub w end in
-    let seq0 := match o with OSetSeq n => n | ORestart h _ => h | _ => w_seq w end in
-    let B0 := match o with ORestart _ _ => [] | _ => w_B w end in
-    let cm_prev := combine accts (o_cmt prev) in
-    let lg := match o with
-              | ORestart _ led => led
-              | OSetLedger a n => aset N.eqb a n (w_led w)
-              | _ => w_led w
-              end in
-    (* C18 *)
-    let '(e_b, B1, seq1, cm_exp) :=
-      if is_drain o then check_drain lg cm_prev sub B0 seq0 (o_batches ob)
-      else let '(e, B, s) := check_batches lg (obs_cmt prev) sub B0 seq0 (o_batches ob) in (e, B, s, cm_prev) in
-    let e_cur := if is_drain o then []
-                 else flag (negb (forallb (fun b : batch => forallb (held ob) (snd b)) (o_batches ob))) E_not_current in
-    let e_cn :=
-      flag (negb (forallb (fun a =>
-        match o with
-        | ORestart _ led => (obs_cmt ob a =? lookup0 a led) && (obs_pend ob a =? lookup0 a led)
-        | OCommit hs => (obs_cmt prev a <=? obs_cmt ob a) &&
-                        ((obs_cmt ob a =? obs_cmt prev a) ||
-                         existsb (fun t => (t_acct t =? a) && (t_nonce t + 1 =? obs_cmt ob a)) hs)
-        | ODrain _ => obs_cmt ob a =? lookup0 a cm_exp
-        | _ => obs_cmt ob a =? obs_cmt prev a
-        end) accts)) E_commit_nonce in
+    let '(e_b, B1, seq1, cm_exp) := st_batches w o ob in
     let B2 := live (obs_cmt ob) B1 in
-    (* C19 *)
-    let e_lookup := flag (negb (forallb (fun t => match obs_get ob t with None => true | Some t' => tx_eqb t' t end) univ)) E_lookup in
-    let e_lost := flag (negb (forallb (fun t => negb (held prev t) || held ob t || lost_ok w o ob t) univ)) E_lost in
-    let e_adm := match o with
-                 | OProcess _ _ _ txs => flag (negb (forallb (held ob) (fresh_valid prev (w_sub w) [] txs))) E_not_admitted
-                 | _ => []
-                 end in
-    let e_flag := flag (existsb (fun a => next_batch (obs_cmt ob) B2 a <? obs_pend ob a) accts && negb (o_has ob)) E_flag in
-    let e_pend := flag (negb (forallb (pending_exact ob) accts)) E_pending in
-    let e_stale := flag (len (filter (fun t => slot_held ob (slot_of t)) (dedup tx_eqb sub)) <? nth 4 (o_dbg ob) 0) E_stale in
-    let e_live :=
-      match o with
-      | ODrain k =>
-          if ready_unbatched prev (w_B w) <=? N.of_nat k * batch_size p then
-            flag (negb (forallb (fun t =>
-                    negb (ready_unbatched_tx prev (w_B w) t)
-                    || existsb (fun b : batch => mem tx_eqb t (snd b)) (o_batches ob)) univ)) E_liveness
-          else []
-      | _ => []
-      end in
-    let arr := match o with
-               | ORestart _ _ => []
-               | OProcess _ _ now txs =>
-                   fold_left (fun ar t => if negb (held prev t) && held ob t then aset tx_eqb t now ar else ar) txs (w_arr w)
-               | _ => w_arr w
-               end in
-    (e_b ++ e_cur ++ e_cn ++ e_lookup ++ e_lost ++ e_adm ++ e_flag ++ e_pend ++ e_stale ++ e_live,
-     mkW B2 seq1 sub arr lg ob).
+    (e_b ++ e_current o ob ++ e_commit_nonce w o ob cm_exp ++ e_lookup ob ++ e_lost w o ob ++ e_admitted w o ob
+         ++ e_flag ob B2 ++ e_pending ob ++ e_stale w o ob ++ e_liveness w o ob,
+     mkW B2 seq1 (st_sub w o) (st_arr w o ob) (st_led w o) ob).
 
   (** all failures of a trace as (code, step index) *)
   Fixpoint check_trace (w : wst) (i : N) (tr : list (op * obs)) : list (N * N) :=
